@@ -786,10 +786,12 @@ def gen_graph(g, p):
     return out
 
 
-def gen_data(g, p, e, equal_sizes, unique):
+def gen_data(g, p, e, equal_sizes, unique, bigN=False):
     Ns = [g.randint(2, 40) if g.random() < 0.95 else 1 for _ in range(e)]
     if equal_sizes:
         Ns = [g.choice([g.randint(2, 40), g.randint(16, 40)])] * e
+    if bigN:
+        Ns[g.randrange(e)] = g.choice([120, 200, 300])      # enough rows for a long tail of small weights to carry mass
     forms = ["f8", "f8", "f8", "f8", "i8", "f4", "F", "view"]              # dtype / memory layout of the caller's arrays
     form0 = g.choice(forms)
     mixed = e >= 2 and g.random() < 0.3                                    # environments need not share a dtype
@@ -838,7 +840,8 @@ def gen_net(g, cfg, nid):
     p = g.randint(1, cfg["pmax"]) if not cfg.get("big") else cfg["pmax"]
     e = g.randint(1, 3)
     graph = gen_graph(g, p)
-    data = gen_data(g, p, e, equal_sizes=g.random() < 0.4, unique=g.random() < 0.85)
+    data = gen_data(g, p, e, equal_sizes=g.random() < 0.4, unique=g.random() < 0.85,
+                    bigN=bool(cfg.get("bigN")) and g.random() < 0.7)
     rec = {"op": "net.new", "id": nid, "graph": enc(graph), "data": [enc(d) for d in data],
            "verbose": g.random() < 0.15}
     if g.random() < 0.1:
@@ -854,6 +857,11 @@ def gen_n(g, meta, cfg=None):
     r = g.random()
     if r < 0.35:
         return None
+    if r < 0.43:
+        # a subsample: just below the number of observations (of one environment, or of each)
+        if g.random() < 0.5:
+            return max(1, g.choice(meta["Ns"]) - g.randint(1, 3))
+        return [max(1, N - g.randint(1, 3)) for N in meta["Ns"]]
     if r < 0.7:
         return g.choice([g.randint(1, 40), g.randint(14, 40)])
     return [g.randint(1, 40) for _ in range(meta["e"])]
@@ -865,6 +873,7 @@ def generate(run_seed, deep=False):
     cfg = gen_config(g)
     if cfg["peer"].get("tail") and not cfg["peer"]["uniform"] and g.random() < 0.75:
         cfg["nbig"] = True          # long-tailed weights show in frequencies: ask for many rows
+        cfg["bigN"] = g.random() < 0.6
     cfg["deep"] = bool(deep) and st["deep"].random() < 0.5
     if bool(deep) and st["deep"].random() < 0.004:
         return cfg, generate_giant(st["deep"], cfg)
